@@ -317,7 +317,9 @@ def main():
         'wall_s': round(time.time() - t0, 2),
         'violations': len(vio_lines),
     }
-    json.dump(ev, open(os.path.join(HERE, 'evidence', prop + '.json'), 'w'), indent=1, default=str)
+    evdir = os.environ.get('VERIF_EVIDENCE_DIR') or os.path.join(HERE, 'evidence')   # seeded-mutant runs write elsewhere
+    os.makedirs(evdir, exist_ok=True)
+    json.dump(ev, open(os.path.join(evdir, prop + '.json'), 'w'), indent=1, default=str)
 
     for l in lines:
         print(l)
